@@ -214,7 +214,7 @@ class CallGraph(object):
             if isinstance(tgt, list):
                 t = set()
                 for g in tgt:
-                    t |= self._ret_of(g, None)
+                    t |= self._args_of(f, e, g, self._ret_of(g, None))
                 return t
             if isinstance(fn, ast.Name) and fn.id == 'cls' and f.cls:
                 return {f.cls.dotted}
@@ -228,7 +228,7 @@ class CallGraph(object):
                         continue
                     ms = prog.find_method(cls, fn.attr)
                     for g in ms or []:
-                        t |= self._ret_of(g, cname)
+                        t |= self._args_of(f, e, g, self._ret_of(g, cname))
                 if fn.attr in ('values', 'items', 'keys', 'copy') and not t:
                     return {x for x in rt if not x.startswith('type:')}
                 return t
@@ -269,6 +269,30 @@ class CallGraph(object):
         if isinstance(e, ast.Starred):
             return self.expr_types(f, e.value)
         return set()
+
+    def _args_of(self, f, call, g, types):
+        """Replace 'ARG:i' (the callee returns its i-th parameter) by the
+        types of the argument this call passes there."""
+        out = set()
+        for x in types:
+            if not x.startswith('ARG:'):
+                out.add(x)
+                continue
+            i = int(x[4:])
+            decs = [d.qname for d in g.decorators]
+            bound = g.cls is not None and 'staticmethod' not in decs and \
+                isinstance(call.func, ast.Attribute)
+            j = i - 1 if bound else i
+            if 0 <= j < len(call.args):
+                out |= {y for y in self.expr_types(f, call.args[j])
+                        if not y.startswith('type:')}
+            else:
+                pn = g.params[i] if i < len(g.params) else None
+                for k in call.keywords:
+                    if k.arg == pn:
+                        out |= {y for y in self.expr_types(f, k.value)
+                                if not y.startswith('type:')}
+        return out
 
     def _ret_of(self, g, recv_cls):
         t = set(self.ret_types.get(g, ()))
@@ -366,6 +390,15 @@ class CallGraph(object):
                 if isinstance(v, ast.Call) and isinstance(
                         v.func, ast.Name) and v.func.id == 'cls':
                     new.add('SELF')
+                    continue
+                if isinstance(v, ast.Name) and v.id in f.params and not [
+                        a for a in own_nodes(f.node)
+                        if isinstance(a, ast.Assign) and any(
+                            isinstance(t, ast.Name) and t.id == v.id
+                            for t in a.targets)]:
+                    # returns its own parameter: the type is the caller's
+                    # argument at that position (decided per call site)
+                    new.add('ARG:%d' % f.params.index(v.id))
                     continue
                 for x in self.expr_types(f, v):
                     if x.startswith('type:'):
